@@ -242,7 +242,7 @@ def _bind(helper, call, is_method):
 _counter = [0]
 
 
-def expand_call(helper, call, caller_locals, is_method=False, receiver=None, result_name=None, pure_direct=False):
+def expand_call(helper, call, caller_locals, is_method=False, receiver=None, result_name=None, pure_direct=False, any_returns=False):
     """(prelude statements, body statements with `return e` rewritten through
     `make_result`, result-expression-or-None).  The caller decides what to do
     with the result."""
@@ -251,7 +251,7 @@ def expand_call(helper, call, caller_locals, is_method=False, receiver=None, res
     if helper.decorator_list:
         raise _Refuse('decorated helper')
     body = copy.deepcopy(_body(helper))
-    if not _returns_in_tail_only(body):
+    if not any_returns and not _returns_in_tail_only(body):
         raise _Refuse('return not in tail position')
     for n in ast.walk(helper):
         if isinstance(n, ast.Call) and isinstance(n.func, ast.Name) and n.func.id == helper.name:
@@ -393,7 +393,22 @@ class Inliner:
             if t is not None:
                 helper, is_method, recv = t
                 rn = s.targets[0].id if kind == 'assign' and isinstance(s.targets[0], ast.Name) else None
-                prelude, body, tag = expand_call(helper, call, caller_locals, is_method, recv, result_name=rn)
+                # `return h(..)`: the helper's returns ARE the caller's returns, wherever they stand (early returns, returns
+                # inside loops): the body is copied verbatim
+                prelude, body, tag = expand_call(helper, call, caller_locals, is_method, recv, result_name=rn,
+                                                 any_returns=(kind == 'return'))
+                verbatim = kind == 'return' and not _returns_in_tail_only(body)
+                if kind == 'return' and not verbatim:
+                    try:
+                        _rewrite_returns(copy.deepcopy(body), lambda e: [ast.Return(value=e)])
+                    except _Refuse:
+                        verbatim = True
+                if verbatim:
+                    if not _ends(body):
+                        body = body + [ast.copy_location(ast.Return(value=None), s)]
+                    self.done.append(helper.name)
+                    res = _drop_self_assign(prelude + body)
+                    return res or [ast.copy_location(ast.Pass(), s)]
                 if kind == 'expr':
                     body = _rewrite_returns(body, lambda e: [] if e is None or isinstance(e, (ast.Constant, ast.Name)) else [ast.copy_location(ast.Expr(value=e), s)])
                 elif kind == 'assign':
